@@ -31,6 +31,8 @@
 //	c10.runtime_closed_word runtime.go CloseWithExitCode + failIfClosed        the closed word's definition, its test and the recovery of the exit code
 //	c14.compiler_memory_size wazevo/frontend/lower.go lowerCurrentOpcode        builder methods (As…) and pushes of the memory.size case, in source order
 //	c02.ireduce_amd64       amd64/machine.go LowerInstr                        the expression statements of the Ireduce (i32.wrap_i64) case
+//	c04.table_grow_fill     wasm/table.go TableInstance.Grow                    the seeding assignment and the doubling loop that fill the new region
+//	c02.interp_grow_slot    interpreter/interpreter.go callNativeFunc + popMemoryOffset   what memory.grow pushes; how a static offset is added to a popped address
 package main
 
 import (
@@ -597,6 +599,48 @@ func main() {
 			})
 		}
 		add("c02.ireduce_amd64", strings.Join(ev, " | "))
+	}
+	{
+		gr := fn(*repo, "internal/wasm/table.go", "Grow", "TableInstance")
+		var parts []string
+		for i, st := range gr.Body.List {
+			if fs, ok := st.(*ast.ForStmt); ok {
+				if i > 0 {
+					parts = append(parts, src(gr.Body.List[i-1]))
+				}
+				parts = append(parts, src(fs))
+			}
+		}
+		if len(parts) == 0 {
+			die("TableInstance.Grow: no for statement")
+		}
+		add("c04.table_grow_fill", strings.Join(parts, " ;; "))
+	}
+	{
+		cn := fn(*repo, "internal/engine/interpreter/interpreter.go", "callNativeFunc", "callEngine")
+		cc := caseClause(cn, "operationKindMemoryGrow")
+		var pushes []string
+		for _, st := range cc.Body {
+			ast.Inspect(st, func(n ast.Node) bool {
+				if es, ok := n.(*ast.ExprStmt); ok && strings.Contains(src(es), "pushValue") {
+					pushes = append(pushes, src(es))
+				}
+				return true
+			})
+		}
+		pm := fn(*repo, "internal/engine/interpreter/interpreter.go", "popMemoryOffset", "callEngine")
+		var body []string
+		for _, st := range pm.Body.List {
+			switch x := st.(type) {
+			case *ast.AssignStmt:
+				body = append(body, src(x))
+			case *ast.IfStmt:
+				body = append(body, "if "+src(x.Cond))
+			case *ast.ReturnStmt:
+				body = append(body, src(x))
+			}
+		}
+		add("c02.interp_grow_slot", strings.Join(pushes, " | ")+" ;; "+strings.Join(body, " ; "))
 	}
 	add("c09.compiled_fields", "wazevo.compiledModule: "+structFields(*repo, "internal/engine/wazevo/engine.go", "compiledModule")+
 		" ;; interpreter.compiledFunction: "+structFields(*repo, "internal/engine/interpreter/interpreter.go", "compiledFunction"))
